@@ -87,16 +87,12 @@ func (f *WriteSequence) Call(s *slip.Scope, args slip.List, depth int) slip.Obje
 		rest := args[2:]
 		start := 0
 		end := len(ra)
-		if w, ok = args[1].(io.Writer); ok {
-			ss, _ = args[1].(slip.Stream)
-			rest = args[2:]
-		}
 		if value, has := slip.GetArgsKeyValue(rest, slip.Symbol(":start")); has {
 			var num slip.Fixnum
 			if num, ok = value.(slip.Fixnum); ok {
 				start = int(num)
-				if start < 0 || len(ra) <= start {
-					slip.ErrorPanic(s, depth, ":start (%d) out of range 0 to %d.", start, len(ra)-1)
+				if start < 0 || len(ra) < start {
+					slip.ErrorPanic(s, depth, ":start (%d) out of range 0 to %d.", start, len(ra))
 				}
 			} else {
 				slip.TypePanic(s, depth, "start", value, "fixnum")
@@ -108,8 +104,8 @@ func (f *WriteSequence) Call(s *slip.Scope, args slip.List, depth int) slip.Obje
 				end = len(ra)
 			case slip.Fixnum:
 				end = int(tv)
-				if end < start || len(ra) <= end {
-					slip.ErrorPanic(s, depth, ":end (%d) out of range %d to %d.", end, start, len(ra)-1)
+				if end < start || len(ra) < end {
+					slip.ErrorPanic(s, depth, ":end (%d) out of range %d to %d.", end, start, len(ra))
 				}
 			default:
 				slip.TypePanic(s, depth, "end", value, "fixnum")
